@@ -1892,9 +1892,13 @@ def auto_helper(repo, name, prefer=()):
             continue  # methods are not auto-extracted
         found.append((f, src, loc))
     if len(found) > 1 and prefer:
-        pf = [x for x in found if os.path.relpath(x[0], repo).split("/")[0] in prefer]
-        if pf:
-            found = pf
+        # `prefer` is ordered: the crate most of the unit's functions come from first (a caller resolves a free
+        # function in its own crate before anything else)
+        for crate in prefer:
+            pf = [x for x in found if os.path.relpath(x[0], repo).split("/")[0] == crate]
+            if pf:
+                found = pf
+                break
     if len(found) != 1:
         return None
     f, src, loc = found[0]
